@@ -35,6 +35,11 @@
     (TrLen Int) (TrA (Array Int Val)) (TrB (Array Int Val))   ; ghost trace of callback invocations
   ))))
 
+; gh(h): h is a heap of the execution under analysis (asserted by the engine for every heap constant it
+; introduces). Every axiom that states a fact about heaps is relativised to gh: such facts hold of
+; reachable heaps, not of every value of the datatype (an unguarded version is inconsistent).
+(declare-fun gh (Heap) Bool)
+
 ; ---- numbers ---------------------------------------------------------------
 (define-fun MAXINT () Int 9223372036854775807)
 (define-fun MININT () Int (- 9223372036854775808))
